@@ -272,11 +272,12 @@ class SchemaSet:
 # ----------------------------------------------------------------------------------------------- name factory
 
 class Names:
-    def __init__(self, r, keyword_rate=0.08, styles=None, max_words=3):
+    def __init__(self, r, keyword_rate=0.08, styles=None, max_words=3, pool=None):
         self.r = r
         self.keyword_rate = keyword_rate
         self.styles = styles or STYLES
         self.max_words = max_words
+        self.pool = pool or PLAIN_WORDS
 
     def fresh(self, taken_snake, taken_pascal=None, style=None, allow_keyword=True):
         """A name whose snake form is not in taken_snake (and pascal form not in taken_pascal)."""
@@ -284,14 +285,14 @@ class Names:
         for _ in range(200):
             if allow_keyword and r.random() < self.keyword_rate:
                 kw = r.choice([k for k in KEYWORDS if k not in ("Self", "macro_rules")])
-                words = (kw,) if r.random() < 0.6 else (kw, r.choice(PLAIN_WORDS))
+                words = (kw,) if r.random() < 0.6 else (kw, r.choice(self.pool))
                 if len(words) == 1:
                     st = r.choice(["camel", "snake", "kebab", "dotted"])      # styles that leave a lone word lower-case
                 else:
                     st = style or r.choice(self.styles)
             else:
-                n = r.choice([1, 2, 2, 3][: self.max_words + 1])
-                words = tuple(r.sample(PLAIN_WORDS, n))
+                n = min(r.choice([1, 2, 2, 3][: self.max_words + 1]), len(self.pool))
+                words = tuple(r.sample(self.pool, n))
                 st = style or r.choice(self.styles)
             nm = Name(words, st)
             if nm.snake in taken_snake:
